@@ -10,6 +10,7 @@ import time
 
 import xonsh.lib.lazyimps as xli
 from xonsh.built_ins import XSH
+from xonsh.lib import verifhooks as _vh
 
 
 class QueueReader:
@@ -123,14 +124,18 @@ def populate_fd_queue(reader, fd, queue):
     If this ends or fails, it flags the calling reader object as closed.
     """
     while True:
+        _vh.point("pump.before_read", fd=fd)
         try:
             c = os.read(fd, 1024)
         except OSError:
+            _vh.point("pump.closed", fd=fd, how="error")
             reader.closed = True
             break
         if c:
+            _vh.point("pump.put", fd=fd, n=len(c))
             queue.put(c)
         else:
+            _vh.point("pump.closed", fd=fd, how="eof")
             reader.closed = True
             break
 
